@@ -57,6 +57,9 @@ Theorem C20_release : forall m a p m1, NoDup (map fst (m_peers m)) -> pget (m_pe
   (forall j, p_piece_index p <> Some j -> nthN (m_status m1) j = nthN (m_status m) j).
 Proof. exact kill_releases. Qed.
 
+(* "three keep-alive intervals of two minutes": the code's constants, pinned *)
+Example C20_intervals_pinned : peer_handler_KEEP_ALIVE_LIMIT = 2 /\ peer_handler_KEEP_ALIVE_INTERVAL_SEC = 120. Proof. split; reflexivity. Qed.
+
 Print Assumptions C20_silent.
 Print Assumptions C20_live.
 Print Assumptions C20_only_timer_counts.
